@@ -589,6 +589,123 @@ def r8(R, repo):
   R.judge(len(reg) == 1, len(reg) == 1 and c.dominated(init[0], reg), key_of(f, 'registered before children are built'), f, 'index_ref[nodedef.index] = node must precede init(node, children) so that cycles resolve to the node itself')
 
 
+def check_aliasing_body(R, repo):
+  """check_consistent_aliasing compares *every* prefix recorded for a node and rejects more than one distinct value."""
+  f = repo.func(EX, 'check_consistent_aliasing')
+  c = cfg_of(f)
+  key = key_of(f, 'a node reached under two different prefixes is rejected (None counts as a prefix)')
+  tests = [n for n in c.nodes if n.kind == 'if' and isinstance(n.ast, ast.Compare) and len(n.ast.ops) == 1 and isinstance(n.ast.left, ast.Call) and astu.call_name(n.ast.left) == 'len'
+           and n.ast.left.args and isinstance(n.ast.left.args[0], ast.Name)]
+  cand = []
+  for t in tests:
+    for d in flow.defs(f, t.ast.left.args[0].id):
+      if isinstance(d[0], (ast.SetComp, ast.Call)):
+        cand.append((t, d[0]))
+  cand = [(t, d) for t, d in cand if isinstance(d, ast.SetComp) or (astu.call_name(d) == 'set' and d.args and isinstance(d.args[0], (ast.GeneratorExp, ast.ListComp)))]
+  if len(cand) != 1:
+    R.unsure(key, f, 'the `len(<set of prefixes>) > 1` test was not recognised')
+    return
+  t, d = cand[0]
+  comp = d if isinstance(d, ast.SetComp) else d.args[0]
+  op, rhs = t.ast.ops[0], t.ast.comparators[0]
+  # which outcome of the test leads to the report (node_msgs.append / raise)?  `if len(s) <= 1: continue` reports on the false edge
+  acts = [n for n in c.nodes if n is not t and n.kind == 'stmt' and any(isinstance(x, ast.Call) and astu.call_tail(x) == 'append' for x in ast.walk(n.stmt)) or isinstance(n.stmt, ast.Raise)]
+  on_true = [n for n in acts if c.edge_guarded(n, t, 'T')]
+  on_false = [n for n in acts if c.edge_guarded(n, t, 'F')]
+  if on_false and not on_true:
+    op = {ast.LtE: ast.Gt, ast.Lt: ast.GtE, ast.Eq: ast.NotEq, ast.Gt: ast.LtE, ast.GtE: ast.Lt, ast.NotEq: ast.Eq}.get(type(op), type(op))()
+  elif not on_true:
+    R.unsure(key, (f, t.stmt), 'what the `%s` test guards was not recognised' % astu.short(t.ast))
+    return
+  thr_ok = (isinstance(op, ast.Gt) and astu.is_const(rhs, 1)) or (isinstance(op, ast.GtE) and astu.is_const(rhs, 2)) or (isinstance(op, ast.NotEq) and astu.is_const(rhs, 1))
+  filt = [i for g in comp.generators for i in g.ifs]
+  if filt:
+    R.fail(key, (f, comp), '`%s` leaves prefixes out of the comparison (`if %s`): the same node passed under two different specifications — for instance axis 0 and None — is silently resolved instead of raising "Inconsistent aliasing"' % (astu.short(comp), astu.short(filt[0])))
+  elif not thr_ok and isinstance(rhs, ast.Constant):
+    R.fail(key, (f, t.stmt), '`%s`: two distinct prefixes for one node must already be rejected' % astu.short(t.ast))
+  elif thr_ok:
+    R.ok(key, (f, t.stmt))
+  else:
+    R.unsure(key, (f, t.stmt), 'threshold `%s` not recognised' % astu.short(t.ast))
+  raises = [n for n in c.nodes if isinstance(n.stmt, ast.Raise) and astu.raised_name(n.stmt) == 'ValueError' and 'aliasing' in astu.src(n.stmt).lower()]
+  R.judge(bool(raises) or not evid.raises_deep(repo, f, 'ValueError'), bool(raises), key_of(f, 'inconsistent aliasing raises'), f, 'check_consistent_aliasing must raise ValueError for inconsistent aliasing')
+
+
+@rule('C04.R12', 'K4', 8, 'inner functions hand back the caller\'s graph nodes at every depth of the arguments (extract.clear_non_graph_nodes), not only top-level ones')
+def r12(R, repo):
+  n = 0
+  for mod in _tmods(repo):
+    for f in mod.funcs.values():
+      for call in astu.func_calls(f):
+        if astu.call_tail(call) != 'to_tree' or not call.args or not isinstance(call.args[0], ast.Tuple) or len(call.args[0].elts) < 2:
+          continue
+        first = call.args[0].elts[0]
+        if not isinstance(first, ast.Name):
+          continue
+        exprs = [e for e in evid.expand(f, first) if isinstance(e, ast.AST) and not isinstance(e, ast.Name)]
+        cleared = [e for e in exprs for x in ast.walk(e) if isinstance(x, ast.Call) and astu.call_tail(x) == 'clear_non_graph_nodes']
+        shallow = [e for e in exprs if (isinstance(e, (ast.GeneratorExp, ast.ListComp)) or (isinstance(e, ast.Call) and astu.call_name(e) in ('tuple', 'list') and e.args and isinstance(e.args[0], (ast.GeneratorExp, ast.ListComp))))
+                   and any(isinstance(y, ast.IfExp) and (astu.is_const(y.orelse, None) or astu.is_const(y.body, None)) for y in ast.walk(e))]
+        key = key_of(f, 'arguments sent back through clear_non_graph_nodes')
+        if cleared:
+          n += 1
+          R.ok(key, (f, call))
+        elif shallow:
+          n += 1
+          R.fail(key, (f, shallow[0]), '`%s` keeps graph nodes only when they are top-level arguments: a Module or Variable passed inside a tuple, list or dict argument is replaced by None on the way out, so the updates made to it inside the transform never reach the caller\'s object' % astu.short(shallow[0], 120))
+  R.require(n >= 8, 'expected >= 8 inner to_tree((args_out, out)) sites, found %d' % n)
+
+
+@rule('C04.R11', 'K5', 6, 'context stacks are LIFO: pushed with append, popped with pop(), and the current context is the last element')
+def r11(R, repo):
+  mod = repo.mod(GR)
+  stacks = set()
+  for f in mod.funcs.values():
+    for x in astu.func_calls(f):
+      if isinstance(x.func, ast.Attribute) and x.func.attr in ('append', 'pop') and 'GRAPH_CONTEXT.' in astu.src(x.func.value):
+        base = x.func.value
+        while isinstance(base, ast.Subscript):
+          base = base.value
+        stacks.add(astu.src(base))
+  R.require(len(stacks) >= 3, 'context stacks of GRAPH_CONTEXT not found (got %s)' % sorted(stacks))
+  for f in mod.funcs.values():
+    local = {n_ for n_ in {t.id for st in astu.body_walk(f.node) if isinstance(st, ast.Assign) for t in st.targets if isinstance(t, ast.Name)}
+             if any(isinstance(d[0], ast.AST) and any(astu.src(b) in stacks for b in ast.walk(d[0])) and isinstance(d[0], (ast.Subscript, ast.Attribute)) for d in flow.defs(f, n_))}
+    for n in astu.body_walk(f.node):
+      if isinstance(n, ast.Subscript) and isinstance(n.ctx, ast.Load):
+        base = n.value
+        through = astu.src(base)
+        is_stack = through in stacks or (isinstance(base, ast.Subscript) and astu.src(base.value) in stacks and through not in stacks) or (isinstance(base, ast.Name) and base.id in local)
+        if not is_stack or astu.src(n) in stacks:
+          continue
+        if isinstance(base, ast.Name) and base.id in local and not isinstance(n.slice, (ast.Constant, ast.UnaryOp)):
+          continue
+        if through in stacks and not isinstance(n.slice, (ast.Constant, ast.UnaryOp)):
+          continue  # update_context_stacks[tag]: selecting the stack of a tag, not an element of a stack
+        idx = n.slice
+        key = key_of(f, 'current context = last element of %s' % through)
+        if isinstance(idx, ast.UnaryOp) and isinstance(idx.op, ast.USub) and astu.is_const(idx.operand, 1):
+          R.ok(key, (f, n))
+        elif isinstance(idx, ast.Constant) and isinstance(idx.value, int):
+          R.fail(key, (f, n), '`%s` takes element %d of a context stack: a transform nested inside the same kind of transform would use the *outer* call\'s context instead of its own' % (astu.short(n), idx.value))
+      if isinstance(n, ast.Call) and isinstance(n.func, ast.Attribute) and n.func.attr == 'pop':
+        base = n.func.value
+        through = astu.src(base)
+        keyed = {astu.src(x_.value) for x_ in ast.walk(mod.tree) if isinstance(x_, ast.Subscript) and astu.src(x_.value) in stacks and not isinstance(x_.slice, (ast.Constant, ast.UnaryOp))}
+        # a dict of stacks (update_context_stacks[tag]) is popped through one of its values, a plain stack directly
+        if (through in stacks and through not in keyed) or (isinstance(base, ast.Name) and base.id in local) or (isinstance(base, ast.Subscript) and astu.src(base.value) in stacks):
+          key = key_of(f, 'pop() removes the last element of %s' % through)
+          if not n.args:
+            R.ok(key, (f, n))
+          elif isinstance(n.args[0], ast.Constant) and n.args[0].value in (0,):
+            R.fail(key, (f, n), '`%s` pops the oldest context: nested contexts are unwound in the wrong order' % astu.short(n))
+
+
+@rule('C04.R10', 'K1', 2, 'one object passed under two different specifications is rejected, whatever the specifications are')
+def r10(R, repo):
+  check_aliasing_body(R, repo)
+
+
 @rule('C04.R9', 'K12', 1, 'indices of the caller\'s objects (0 = the first argument) are never tested for truth (shared with C03.R9)')
 def r9(R, repo):
   from . import c03 as _c03
